@@ -27,9 +27,11 @@ Scenarios ==
            p \in Positions, r \in Reqs, f \in {"cut-request", "cut-response"}, k \in Offsets}
   \cup (IF Slow
         THEN {[pos |-> p, req |-> r, fault |-> f, k |-> 0] : p \in Positions, r \in Reqs, f \in SlowFaults}
+        \* quick: a hang ahead of and between healthy plugins for every request kind, the rest once
         ELSE {[pos |-> 1, req |-> "CreateContainer", fault |-> f, k |-> 0] : f \in SlowFaults}
-             \cup {[pos |-> 0, req |-> "StartContainer", fault |-> "hang", k |-> 0],
-                   [pos |-> 2, req |-> "UpdateContainer", fault |-> "hang-ctx", k |-> 0]})
+             \cup {[pos |-> p, req |-> r, fault |-> "hang", k |-> 0] : p \in {0, 1}, r \in Reqs}
+             \cup {[pos |-> 0, req |-> r, fault |-> "hang-ctx", k |-> 0] : r \in Reqs}
+             \cup {[pos |-> 2, req |-> "UpdateContainer", fault |-> "hang-ctx", k |-> 0]})
 
 GInit == sc \in Scenarios /\ emitted = FALSE
 GEmit == ~emitted /\ PrintT(<<"CASE", ToJson(sc)>>) /\ emitted' = TRUE /\ UNCHANGED sc
